@@ -73,7 +73,7 @@ func main() {
 	r := ev.Start("C10", "exploration")
 	r.Supervise() // a real engine runs in-process: its death is an outcome, observed by a supervising parent
 	r.Rule("concurrent client histories on a real 3-node cluster (4 map keys touched by puts, deletes, bounded range deletes and transactions incl. empty-branch and read-only ones; 2 register keys touched only by single-key ops), " +
-		"node 3 lagging through a stalled apply path; each run = one recorded history judged offline. Non-trivial: a run with >=50 linearizable reads served by the lagging node while it was behind and >=20 empty-branch transactions; distinct by run seed. " +
+		"node 3 lagging through a stalled apply path; each run = one recorded history judged offline. Non-trivial: every linearizable read / read-only txn served by the lagging node while it was behind the newest acknowledged write (distinct by run and call number), and every run with >=50 of them plus >=20 empty-branch transactions. " +
 		"Runs containing an ambiguous (failed / timed out) write are discarded as inconclusive")
 	r.Assume("no client-visible failures are injected: a write that ends in an error makes the whole run inconclusive rather than being guessed at",
 		"history recorded at the engine API boundary (the same calls the gRPC KV service makes)")
@@ -109,7 +109,7 @@ func main() {
 	r.FloorCount("linearizable_reads_judged", int64(r.Pick(300, 5000)))
 	r.FloorCount("linearizable_reads_on_lagging_node_while_behind", int64(r.Pick(50, 800)))
 	r.FloorCount("empty_branch_txns_acked", int64(r.Pick(20, 300)))
-	r.FloorNontrivial(1)
+	r.FloorNontrivial(int64(r.Pick(50, 800)))
 	r.Finish()
 }
 
@@ -586,6 +586,7 @@ func judgeHistory(r *ev.Run, seed int64, profile string, hist []*op) {
 			if o.behind && o.Node == 3 {
 				r.Count("linearizable_reads_on_lagging_node_while_behind", 1)
 				behindLin++
+				r.Nontrivial(fmt.Sprint("lagging-lin-read", seed, o.Call))
 			}
 		} else {
 			r.Count("serializable_reads_judged", 1)
